@@ -125,6 +125,32 @@ func c18Programs() []Program {
 		s.Alter = "none"
 		ps = append(ps, Program{Kind: "token", Token: &s})
 	}
+	// (appended after the first recording) the same proof cited more than once: tokens by link,
+	// worlds with embedded proofs, receipts
+	for i := 0; i < 8; i++ {
+		var s USpec
+		s.Key = []string{"ed0", "rsa0", "wrap3", "ed2"}[i%4]
+		s.Aud = fmt.Sprintf("ed%d", 12+i%6)
+		s.Fields.Att = []UCap{{Can: "store/add", With: "did:key:z6MkExample", Nb: tvMap(nil)}}
+		s.Fields.Prf = [][]string{{cidPool[0], cidPool[0]}, {cidPool[0], cidPool[1], cidPool[0]}, {cidPool[1], cidPool[1], cidPool[1]}, {cidPool[0], cidPool[1], cidPool[1], cidPool[0]}}[i%4]
+		if i >= 4 {
+			e := c18Now + 7000 + i
+			s.Fields.Exp = &e
+		}
+		s.Alter = "none"
+		ps = append(ps, Program{Kind: "token", Token: &s})
+	}
+	for i := 0; i < 12; i++ {
+		var class string
+		w := genWorld(r, c18Now, genOpts{maxDepth: 4, sessions: true, sessionPct: 30, caveats: true, caveatPct: 30, kinds: []string{"dup"}}, &class)
+		normalize(w)
+		ps = append(ps, Program{Kind: "world", World: w})
+	}
+	for i := 0; i < 6; i++ {
+		s := RSpec{Key: []string{"ed0", "rsa0", "wrap2"}[i%3], OK: i%2 == 0, Value: tvInt(int64(i)), RanKind: []string{"inv", "link"}[i%2], Alter: "none", Reader: "untyped",
+			Prfs: [][]string{{"link", "dup"}, {"dlg", "dup"}, {"link", "dlg", "dup", "dup"}}[i%3]}
+		ps = append(ps, Program{Kind: "receipt", Rcpt: &s})
+	}
 	return ps
 }
 
@@ -308,6 +334,15 @@ func readRecorded(p Program, rec Artifacts) []string {
 		chk(err == nil, "recorded delegation string no longer parses")
 		if err == nil && d != nil {
 			chk(d2.Link().String() == d.Link().String(), "string and archive disagree")
+		}
+		// store -> load -> store: what was read back is written out again as it was stored
+		if d != nil {
+			ab, aerr := io.ReadAll(d.Archive())
+			chk(aerr == nil && bytes.Equal(ab, unhex("archive")), "a loaded archive is written back with other bytes")
+		}
+		if err == nil && d2 != nil {
+			f2, ferr := delegation.Format(d2)
+			chk(ferr == nil && f2 == rec["format"], "a parsed delegation string is formatted back to another string")
 		}
 		if p.Kind == "world" {
 			msg, err := request.Decode(thttp.NewHTTPRequest(bytes.NewReader(unhex("request")), map[string][]string{"Content-Type": {rec["content-type"]}}))
